@@ -12,4 +12,23 @@ MUTANTS = {
         ("rsplit_first", "mysensors/message.py", "list_data = data.rstrip().split(delimiter)", "list_data = data.rstrip().rsplit(delimiter, 5)", "green"),
         ("isdigit_guard", "mysensors/message.py", "                int(f) for f in list_data\n", "                int(f) for f in list_data if f.strip().lstrip('-').isdigit() or int(f) is None\n", "caught"),
     ],
+    "C03": [
+        ("max_node_255", "mysensors/const_14.py", "MAX_NODE_ID = 254", "MAX_NODE_ID = 255", "caught"),
+        ("node_range_254", "mysensors/message.py", "                max=BROADCAST_ID,\n", "                max=BROADCAST_ID - 1,\n", "caught"),
+        ("drop_setreq_row", "mysensors/const_15.py", "    SetReq.V_ID: str,\n", "", "caught"),
+        ("speed_loses_auto", "mysensors/const_15.py", "        [MIN, NORMAL, MAX, AUTO],", "        [MIN, NORMAL, MAX],", "caught"),
+        ("no_15_internal", "mysensors/const_15.py", "        Internal.I_GET_NONCE_RESPONSE: str,\n", "", "caught"),
+        ("ack_2", "mysensors/message.py", "valid_ack = vol.In([0, 1],", "valid_ack = vol.In([0, 1, 2],", "caught"),
+        ("child255_any_type", "mysensors/message.py", "        if self.child_id == SYSTEM_CHILD_ID:\n            valid_types", "        if self.child_id == SYSTEM_CHILD_ID + 1000:\n            valid_types", "caught"),
+        ("rgb_len7", "mysensors/const_15.py", "    if len(value) != 6:", "    if len(value) != 7:", "caught"),
+        ("pct_101", "mysensors/validation.py", "vol.Range(min=0, max=100))", "vol.Range(min=0, max=101))", "caught"),
+        ("gps_two_parts", "mysensors/const_20.py", "        latitude, longitude, altitude = value.split(\",\")", "        latitude, longitude, altitude = (value.split(\",\") + [\"0\"])[:3]", "caught"),
+        ("version_gt", "mysensors/validation.py", "        if AwesomeVersion(\"1.4\") > AwesomeVersion(value):", "        if AwesomeVersion(\"1.4\") >= AwesomeVersion(value):", "caught"),
+        ("stream_child_any", "mysensors/message.py", "        if self.type in (const.MessageType.internal, const.MessageType.stream):", "        if self.type in (const.MessageType.internal,):", "caught"),
+        ("id_req_child_strict", "mysensors/message.py", "            const.Internal.I_ID_REQUEST,\n            const.Internal.I_ID_RESPONSE,\n        ]:", "            const.Internal.I_ID_REQUEST,\n        ]:", "caught"),
+        ("power_factor_0_1", "mysensors/const_20.py", "vol.Range(min=-1.0, max=1.0),", "vol.Range(min=0.0, max=1.0),", "caught"),
+        ("valid_types_typo", "mysensors/const_20.py", "        Presentation.S_INFO: [SetReq.V_TEXT],\n", "", "caught"),
+        ("heartbeat_resp_any", "mysensors/const_20.py", "        Internal.I_HEARTBEAT_RESPONSE: vol.All(vol.Coerce(int), vol.Coerce(str)),", "        Internal.I_HEARTBEAT_RESPONSE: str,", "caught"),
+        ("presleep_22_str", "mysensors/const_22.py", "        Internal.I_PRE_SLEEP_NOTIFICATION: vol.All(vol.Coerce(int), vol.Coerce(str)),", "        Internal.I_PRE_SLEEP_NOTIFICATION: str,", "caught"),
+    ],
 }
